@@ -1101,6 +1101,49 @@ cleanup:
     return ret;
 }
 
+/**
+ * @brief Set ::LYS_MOD_IMPORTED_REV only for the modules that are imported without a revision-date
+ * by a (sub)module in the context.
+ *
+ * @param[in] ctx Context with the modules.
+ */
+static void
+lys_unres_glob_revert_imported_rev(struct ly_ctx *ctx)
+{
+    struct lys_module *mod;
+    struct lysp_import *imports;
+    LY_ARRAY_COUNT_TYPE u, v;
+    uint32_t i;
+
+    for (i = 0; i < ctx->list.count; ++i) {
+        mod = ctx->list.objs[i];
+        mod->latest_revision &= ~LYS_MOD_IMPORTED_REV;
+    }
+
+    for (i = 0; i < ctx->list.count; ++i) {
+        mod = ctx->list.objs[i];
+
+        /* imports of the module and submodules */
+        imports = mod->parsed->imports;
+        LY_ARRAY_FOR(imports, u) {
+            if (!imports[u].rev[0] && imports[u].module) {
+                imports[u].module->latest_revision |= LYS_MOD_IMPORTED_REV;
+            }
+        }
+        LY_ARRAY_FOR(mod->parsed->includes, v) {
+            if (!mod->parsed->includes[v].submodule) {
+                continue;
+            }
+            imports = mod->parsed->includes[v].submodule->imports;
+            LY_ARRAY_FOR(imports, u) {
+                if (!imports[u].rev[0] && imports[u].module) {
+                    imports[u].module->latest_revision |= LYS_MOD_IMPORTED_REV;
+                }
+            }
+        }
+    }
+}
+
 void
 lys_unres_glob_revert(struct ly_ctx *ctx, struct lys_glob_unres *unres)
 {
@@ -1159,6 +1202,9 @@ lys_unres_glob_revert(struct ly_ctx *ctx, struct lys_glob_unres *unres)
         /* free the module */
         lys_module_free(&fctx, fctx.mod, 1);
     }
+
+    /* the removed modules no longer import any module */
+    lys_unres_glob_revert_imported_rev(ctx);
 
     /* remove the extensions as well */
     lysf_ctx_erase(&fctx);
